@@ -99,7 +99,11 @@ def make_inject(state):
             for s in head.state.actions.keys():
                 if s.name != "STOP":
                     state["last"] = head.position
-                    head.token_ahead = Token(s, "", head.position, length=0)
+                    # a zero-width token that carries a display text (the usual "insert the missing
+                    # ';'" recovery): its length, not the length of its value, moves the parser
+                    shown = getattr(s.recognizer, "value", None)
+                    head.token_ahead = Token(s, shown if isinstance(shown, str) and shown else "?",
+                                             head.position, length=0)
                     return True
         return default_error_recovery(head)
     return inject_expected
@@ -370,10 +374,18 @@ def _worker(job):
     return out
 
 
-def _terminates_given_time(gtext, delim, sname, w, glr, kw=None, limit=90):
+_CONFIRMED = [0]
+
+
+def _terminates_given_time(gtext, delim, sname, w, glr, kw=None, limit=40):
     """a time-out of the (short) per-case limit is confirmed before it is reported: the same
-    parse is repeated alone with a generous budget (machine load must not raise an alarm)"""
+    parse is repeated alone with a generous budget (machine load must not raise an alarm);
+    at most four confirmations per run -- a parser that loops on many inputs is reported from
+    the first confirmed ones"""
     import parglare
+    _CONFIRMED[0] += 1
+    if _CONFIRMED[0] > 4:
+        return False
     from parglare import GLRParser, Grammar, Parser
     from lib import impl
     try:
